@@ -1145,13 +1145,15 @@ impl QueryRouter {
                 }
 
                 Expr::Value(Value::Placeholder(placeholder)) => {
-                    match placeholder.replace('$', "").parse::<i16>() {
-                        Ok(placeholder) => result.push(ShardingKey::Placeholder(placeholder)),
-                        Err(_) => {
-                            debug!(
-                                "Prepared statement didn't have integer placeholders: {}",
-                                placeholder
-                            );
+                    if found {
+                        match placeholder.replace('$', "").parse::<i16>() {
+                            Ok(placeholder) => result.push(ShardingKey::Placeholder(placeholder)),
+                            Err(_) => {
+                                debug!(
+                                    "Prepared statement didn't have integer placeholders: {}",
+                                    placeholder
+                                );
+                            }
                         }
                     }
                 }
